@@ -8,12 +8,14 @@ Inductive tev :=
 | TCall (i : N) (o : op)                                  (* API call number i starts *)
 | TEv (i : N) (q : req) (a : ans)                          (* a call into the environment and its answer *)
 | TRet (i : N) (o : op) (r : retv) (done : list (N * err * list (list N)))
-       (xev : list (N * option err)) (online : bool).      (* the call returned / was seen blocked *)
+       (xev : list (N * option err)) (online : bool)       (* the call returned / was seen blocked *)
+| TStore (i : N) (m : store).                              (* the environment rewrote the Persistence *)
 
 Fixpoint flatten (steps : list stepobs) (i : N) : list tev :=
   match steps with
   | [] => []
   | s :: r =>
+    (match so_store s with Some m => [TStore i m] | None => [] end) ++
     TCall i (so_op s) :: map (fun e => match e with Ev q a => TEv i q a end) (so_evs s)
       ++ [TRet i (so_op s) (so_ret s) (so_done s) (so_xev s) (so_online s)] ++ flatten r (i + 1)
   end.
@@ -90,6 +92,7 @@ Definition obs_store_step (m : list (N * list N)) (e : tev) : list (N * list N) 
   match e with
   | TEv _ (QSave k v) ADone => obs_put m k v
   | TEv _ (QDelete k) ADone => obs_del m k
+  | TStore _ m' => m'
   | _ => m
   end.
 Definition obs_has (m : list (N * list N)) (k : N) : bool := existsb (fun kv => fst kv =? k) m.
